@@ -153,6 +153,8 @@ GROUPS += [dict(JS, name="json_number", entry="h_json_number", label="bounded", 
                 assumptions=JS["assumptions"] + ["pow returns an arbitrary double and sexp_make_flonum is a recording stub: the numeric value is not specified in this group, only that the token is consumed and the kind of the result"],
                 instances=num_shapes())]
 META = {
+ "level": "other",
+ "explanation": "mixed: the minifloat conversions, the numeric bytevector accessors (all offsets, all values), the JSON string escapes and the JSON string writer/reader round trip are proved without bound (loop-free or fixed-count loops, full input domain); the JSON number reader is bounded (28 token shapes with two digits per part).",
  "trusted_base": ["CBMC 6.11.0 front end, SAT back end, bit-precise IEEE-754 float model (round-to-nearest-even)"],
  "assumptions": ["quarter code 128 (-0.0) re-encodes as 0 (+0.0): numerically equal, excluded from the round-trip clause"],
  "not_covered": ["base64, quoted-printable, URI, CSV, json.scm (Scheme)", "SRFI 160 accessors beyond those sharing the bytevector stub code"],
